@@ -28,6 +28,7 @@ import (
 	"time"
 
 	quic "github.com/refraction-networking/uquic"
+	"github.com/refraction-networking/uquic/internal/protocol"
 	u "github.com/refraction-networking/uquic/internal/verifutil"
 	"github.com/refraction-networking/uquic/internal/wire"
 	"github.com/refraction-networking/uquic/quicvarint"
@@ -528,6 +529,29 @@ func goEnforced(p quic.VerifAdvEnfCfg) (e [kNum]int64) {
 	return e
 }
 
+// goEnforcedFor: the same for a client: a spec-driven connection raises the Config-derived
+// limits to what its spec advertises (configCoveringSpec, SetConnectionIDLimit).
+func goEnforcedFor(p quic.VerifAdvEnfCfg, adv [kNum]int64, specDriven bool) (e [kNum]int64) {
+	e = goEnforced(p)
+	if !specDriven {
+		return e
+	}
+	sw := e[kSDUni]
+	for _, k := range []int{kSDBidiLocal, kSDBidiRemote, kSDUni} {
+		sw = max(sw, adv[k])
+	}
+	e[kSDBidiLocal], e[kSDBidiRemote], e[kSDUni] = sw, sw, sw
+	e[kMaxData] = max(e[kMaxData], adv[kMaxData])
+	e[kStreamsBidi] = max(e[kStreamsBidi], min(adv[kStreamsBidi], 1<<60))
+	e[kStreamsUni] = max(e[kStreamsUni], min(adv[kStreamsUni], 1<<60))
+	e[kCID] = max(e[kCID], adv[kCID])
+	if adv[kDgram] > 0 {
+		e[kDgram] = 16383
+	}
+	e[kIdleMs] = max(e[kIdleMs], adv[kIdleMs])
+	return e
+}
+
 func genEvents(r *u.Rng, adv, enf [kNum]int64) []aeEvent {
 	var evs []aeEvent
 	var usedSD [3]int64
@@ -612,7 +636,10 @@ func conformantPush(kind int, adv [kNum]int64) (evs []aeEvent, need [kNum]int64,
 		need[kCID] = n + 1
 		return []aeEvent{{2, 0, n}}, need, true
 	case kDgram:
-		l := capN(capN(adv[kDgram], adv[kUDP]-18), 70000)
+		// a frame only reaches the client's frame handling inside a packet that fits both the
+		// advertised max_udp_payload_size and the receive buffer (larger packets are dropped, which
+		// is loss, not an error)
+		l := capN(capN(adv[kDgram], adv[kUDP]-18), int64(protocol.MaxPacketBufferSize)-18)
 		if l < 1 {
 			return nil, need, false
 		}
@@ -898,7 +925,7 @@ func runAdvEnf(w *bufio.Writer, seed uint64, n int, args []string) {
 			vc.ApplyPeer(peer)
 			enf := vc.Enforced()
 			pop := quic.VerifAdvEnfCfgOf(vc.Conf)
-			genf := goEnforced(pop)
+			genf := goEnforcedFor(pop, adv, specDriven)
 			dgf := int64(0)
 			if enf.Datagrams {
 				dgf = 1
